@@ -8,12 +8,18 @@ import KrakenModel.Model.AgentTorrent
   outstanding piece requests, requests marked invalid, and which in-flight WritePiece belongs
   to which delivery.  Actions (a schedule / fault sequence is any list of them):
 
-    connect a b      a and b open a connection (both below their connection limit)
-    disconnect a b   the connection is dropped (either side, any time)
+    connect a b      a and b open a connection (both below their connection limit, not blacklisted)
+    disconnect a b   the connection is dropped (either side, any time: preemption, ConnTTI/ConnTTL, a
+                     failure); each side blacklists the other for the torrent
+    unblacklist a b  a's blacklist entry for b expires (BlacklistDuration)
+    expire a b i     a's outstanding request (b, i) times out on a's side (pieceRequestTimeout)
+    reqfail a b i    b answers a's request with PIECE_REQUEST_FAILED: a marks the request invalid
+    resend a f b i   resendFailedPieceRequests: the failed (invalid or expired) request (f, i) is sent
+                     again, to b — never to the peer f that failed it
     leave a          peer a stops (all its connections drop; it answers nothing any more)
     request a b i    a sends PIECE_REQUEST i to b (pipeline limit, a misses i, b has i or lies)
-    deliver a b i g  b's PIECE_PAYLOAD for a's request arrives at a and a's dispatcher calls
-                     WritePiece; an honest b sends the bytes its GetPieceReader yields, a
+    deliver a b i g  a PIECE_PAYLOAD of b for piece i arrives at a (solicited or not: handlePiecePayload
+                     does not look at the request book) and a's dispatcher calls WritePiece; an honest b sends the bytes its GetPieceReader yields, a
                      corrupting b sends the bytes `g` (any bytes: a stronger adversary than
                      flipping); if b cannot serve the piece it answers with an error message and a
                      marks the request invalid
@@ -36,8 +42,10 @@ structure Peer where
   present : Bool := true
   corrupt : Bool := false
   conns : List Nat := []
-  reqs : List (Nat × Nat) := []        -- outstanding requests (peer, piece)
+  reqs : List (Nat × Nat) := []        -- outstanding (pending) requests (peer, piece)
   invalid : List (Nat × Nat) := []     -- requests marked invalid (peer, piece)
+  expired : List (Nat × Nat) := []     -- requests that timed out (peer, piece)
+  blacklist : List Nat := []           -- peers this peer will not connect to for the moment
   inflight : List Delivery := []
   deriving Repr, DecidableEq
 
@@ -54,6 +62,10 @@ structure Swarm where
 inductive Action where
   | connect (a b : Nat)
   | disconnect (a b : Nat)
+  | unblacklist (a b : Nat)
+  | expire (a b i : Nat)
+  | resend (a f b i : Nat)
+  | reqfail (a b i : Nat)
   | leave (a : Nat)
   | request (a b i : Nat)
   | deliver (a b i : Nat) (g : Bytes)
@@ -70,6 +82,24 @@ def hasPieceB (p : Peer) (i : Nat) : Bool := p.tor.pieces[i]? = some .complete
 
 def setPeer (s : Swarm) (a : Nat) (p : Peer) : Swarm := { s with peers := s.peers.set a p }
 
+/-- peer `a` drops its end of the connection to `b` (each side does so on its own; `b` may even be
+    unknown): the requests to `b` are forgotten (ClearPeer) and `b` is blacklisted for a while -/
+def dropEnd (s : Swarm) (a b : Nat) : Swarm :=
+  match s.peers[a]? with
+  | some pa => setPeer s a { pa with conns := pa.conns.erase b, reqs := pa.reqs.filter (·.1 ≠ b),
+                                     blacklist := b :: pa.blacklist }
+  | none => s
+
+/-- `piecerequest.Manager.MarkInvalid(b, i)`: the request of peer `b` for piece `i`, if there is one
+    (pending, or already timed out), becomes invalid; without such a request nothing is recorded -/
+def markInvalid (pa : Peer) (b i : Nat) : Peer :=
+  -- markStatus sets the status of EVERY request of that peer for that piece (the pending one and
+  -- those that timed out earlier)
+  let n := pa.reqs.count (b, i) + pa.expired.count (b, i)
+  if n = 0 then pa
+  else { pa with reqs := pa.reqs.filter (· ≠ (b, i)), expired := pa.expired.filter (· ≠ (b, i)),
+                 invalid := List.replicate n (b, i) ++ pa.invalid }
+
 /-- what b puts on the wire for piece i -/
 def wirePayload (pb : Peer) (i : Nat) (g : Bytes) : Option Bytes :=
   if pb.corrupt then some g
@@ -82,16 +112,35 @@ def step (crc : Bytes → Nat) (s : Swarm) : Action → Swarm
     match s.peers[a]?, s.peers[b]? with
     | some pa, some pb =>
       if a ≠ b ∧ pa.present ∧ pb.present ∧ b ∉ pa.conns ∧ a ∉ pb.conns ∧
-          pa.conns.length < s.cfg.maxConns ∧ pb.conns.length < s.cfg.maxConns then
+          pa.conns.length < s.cfg.maxConns ∧ pb.conns.length < s.cfg.maxConns ∧
+          b ∉ pa.blacklist ∧ a ∉ pb.blacklist then
         setPeer (setPeer s a { pa with conns := b :: pa.conns }) b { pb with conns := a :: pb.conns }
       else s
     | _, _ => s
-  | .disconnect a b =>
+  | .disconnect a b => dropEnd (dropEnd s a b) b a
+  | .unblacklist a b =>
+    match s.peers[a]? with
+    | some pa => setPeer s a { pa with blacklist := pa.blacklist.filter (· ≠ b) }
+    | none => s
+  | .expire a b i =>
+    match s.peers[a]? with
+    | some pa =>
+      if (b, i) ∈ pa.reqs then
+        setPeer s a { pa with reqs := pa.reqs.erase (b, i), expired := (b, i) :: pa.expired }
+      else s
+    | none => s
+  | .reqfail a b i =>
+    -- an ERROR message PIECE_REQUEST_FAILED of b for piece i arrives at a
+    match s.peers[a]? with
+    | some pa => setPeer s a (markInvalid pa b i)
+    | none => s
+  | .resend a f b i =>
     match s.peers[a]?, s.peers[b]? with
     | some pa, some pb =>
-      if a ≠ b then
-        setPeer (setPeer s a { pa with conns := pa.conns.erase b, reqs := pa.reqs.filter (·.1 ≠ b) })
-          b { pb with conns := pb.conns.erase a, reqs := pb.reqs.filter (·.1 ≠ a) }
+      if ((f, i) ∈ pa.invalid ∨ (f, i) ∈ pa.expired) ∧ b ≠ f ∧
+          pa.present ∧ b ∈ pa.conns ∧ ¬ hasPieceB pa i ∧ (hasPieceB pb i ∨ pb.corrupt) ∧
+          (pa.reqs.filter (·.1 = b)).length < s.cfg.pipeline ∧ (b, i) ∉ pa.reqs then
+        setPeer s a { pa with reqs := (b, i) :: pa.reqs }
       else s
     | _, _ => s
   | .leave a =>
@@ -111,7 +160,7 @@ def step (crc : Bytes → Nat) (s : Swarm) : Action → Swarm
   | .deliver a b i g =>
     match s.peers[a]?, s.peers[b]? with
     | some pa, some pb =>
-      if pa.present ∧ pb.present ∧ (b, i) ∈ pa.reqs then
+      if pa.present ∧ pb.present then
         match wirePayload pb i g with
         | some payload =>
           setPeer s a { pa with
@@ -119,7 +168,7 @@ def step (crc : Bytes → Nat) (s : Swarm) : Action → Swarm
             inflight := pa.inflight ++ [{ tid := pa.tor.threads.length, src := b, piece := i }] }
         | none =>
           -- PIECE_REQUEST_FAILED error message: handleError marks the request invalid
-          setPeer s a { pa with reqs := pa.reqs.erase (b, i), invalid := (b, i) :: pa.invalid }
+          setPeer s a (markInvalid pa b i)
       else s
     | _, _ => s
   | .tstep a tid k =>
@@ -134,10 +183,10 @@ def step (crc : Bytes → Nat) (s : Swarm) : Action → Swarm
         let rest := pa.inflight.filter (·.tid ≠ tid)
         match r with
         | .ok => setPeer s a { pa with inflight := rest, reqs := pa.reqs.filter (·.2 ≠ d.piece),
-                                       invalid := pa.invalid.filter (·.2 ≠ d.piece) }
+                                       invalid := pa.invalid.filter (·.2 ≠ d.piece),
+                                       expired := pa.expired.filter (·.2 ≠ d.piece) }   -- Clear(i)
         | .errComplete => setPeer s a { pa with inflight := rest, reqs := pa.reqs.erase (d.src, d.piece) }
-        | _ => setPeer s a { pa with inflight := rest, reqs := pa.reqs.erase (d.src, d.piece),
-                                     invalid := (d.src, d.piece) :: pa.invalid }
+        | _ => setPeer s a (markInvalid { pa with inflight := rest } d.src d.piece)
       | _, _ => s
     | none => s
 
